@@ -3,6 +3,8 @@
 X = dict(repo_units=[], extra_c=['cbmc_mem.c'])   # every unit #includes asmjit/core/jitallocator.cpp through jit_env.h
 UNITS = [
     Unit('block1', harness=['h_block1.cpp'], **X),
+    Unit('block1p', harness=['h_block1p.cpp'], **X),
+    Unit('fillp', harness=['h_fillp.cpp'], defines=['JENV_CBMC_ARENA_BYTES=256'], **X),
     Unit('world2', harness=['h_world2.cpp'], defines=['JENV_POOLS=3', 'JENV_NEW_BLOCK_WORDS=8'], **X),
     Unit('fill', harness=['h_fill.cpp'], defines=['JENV_CBMC_ARENA_BYTES=256'], **X),
     Unit('reset', harness=['h_reset.cpp'], defines=['JENV_CBMC_ARENA_BYTES=256'], **X),
@@ -13,6 +15,7 @@ UNITS = [
 MEM = 'memset.0:10,memset.1:9,memcpy.0:10,memcpy.1:9'          # loops of cbmc_mem.c (stable names)
 FP = '_ZN6asmjit5v1_21L25JitAllocator_fill_patternEPvjm'         # noinline in jitallocator.cpp: its loop ids are stable
 FILL = MEM + ',%s.0:50,%s.1:50,%s.2:50' % (FP, FP, FP)
+FILLP = MEM + ',%s.0:12,%s.1:12,%s.2:12' % (FP, FP, FP)
 B1 = '1 block of 64 granules in any state satisfying I(block), any window/flags/placement; '
 B2 = '1 block of 128 granules (two bit words) in any state satisfying I(block); '
 T = ('thorough',)
@@ -38,13 +41,25 @@ HARNESSES = [
     H('block1', 'h_not_initialized', 'allocator whose construction failed: every entry'),
     H('block1', 'h_statistics', B2),
     H('block1', 'h_initialized_kf_C09C', 'any allocator', known='C09C'),
+    # ---- the same in pools whose granularity differs from the base granularity (address arithmetic must use the POOL granularity)
+    H('block1p', 'h_alloc_p1', B1 + 'block in pool #1 (granularity 128 over base 64); every request size; at most 2 free runs', unwind=4, mem=4, timeout=900, tiers=T),
+    H('block1p', 'h_release_p1', B1 + 'block in pool #1, immediate release'),
+    H('block1p', 'h_release_p2', B1 + 'block in pool #2 (granularity 256 over base 64)', tiers=T),
+    H('block1p', 'h_shrink_p2', B1 + 'block in pool #2, every granule as span start, every new size'),
+    H('block1p', 'h_shrink_p1_g128', B1 + 'block in pool #1 of base 128 (granularity 256)', tiers=T),
+    H('block1p', 'h_query_p1', B1 + 'block in pool #1, dual mapping, every pointer'),
+    H('block1p', 'h_query_p2', B2 + 'block in pool #2 of base 128 (granularity 512), every pointer'),
+    H('fillp', 'h_fill_release_pool1', B1 + 'block in pool #1 of a multi-pool allocator, granularities scaled to 4/8/16 bytes; release of a span of 1..2 granules inside the first 256 bytes; any pattern, any byte of those 256', unwind=6, unwindset=FILLP),
+    H('fillp', 'h_fill_shrink_pool2', B1 + 'block in pool #2 of a multi-pool allocator, granularities scaled to 4/8/16 bytes; shrink of a span of 1..2 granules inside the first 256 bytes; any pattern, any byte of those 256', unwind=6, unwindset=FILLP),
+    H('fillp', 'h_fill_release_pool2_dual', B1 + 'block in pool #2 of a multi-pool allocator, granularities scaled to 4/8/16 bytes; release, dual mapping, of a span of 1..2 granules inside the first 256 bytes; any pattern, any byte of those 256', unwind=6, unwindset=FILLP, tiers=T),
+    H('fillp', 'h_fill_shrink_pool1_dual', B1 + 'block in pool #1 of a multi-pool allocator, granularities scaled to 4/8/16 bytes; shrink, dual mapping, of a span of 1..2 granules inside the first 256 bytes; any pattern, any byte of those 256', unwind=6, unwindset=FILLP, tiers=T),
     # ---- blocks appear / disappear
     H('world2', 'h_first_block', 'empty allocator, 4 boundary sizes, default options, OS refusing or not', unwind=10, mem=4),
     H('world2', 'h_first_block_b', 'same, 4 more sizes', unwind=10, mem=6, tiers=T),
     H('world2', 'h_first_block_nopad_dual', 'same, no padding + dual mapping, granularity 128', unwind=10, mem=6, tiers=T),
     H('world2', 'h_first_block_large_refused', 'same, large pages refused by the OS (fallback to regular pages), no padding, granularity 256', unwind=10, mem=6, tiers=T),
     H('world2', 'h_first_block_large_align', 'same, large pages granted, align option, no padding, granularity 256', unwind=10, mem=6, tiers=T),
-    H('world2', 'h_first_block_multipool', 'same, 3 pools, sizes selecting each pool', unwind=10, mem=6, tiers=T),
+    H('world2', 'h_first_block_multipool', 'same, 3 pools, sizes selecting each pool (span address in the coarser pools)', unwind=10, mem=3),
     H('world2', 'h_block_size_policy', 'every request size, base block 64 KiB..8 MiB, last block base*2^k, padding on/off', unwind=6),
     H('world2', 'h_second_block', 'pool with one full block of 64 granules, 4 boundary sizes, either address order', unwind=10),
     H('world2', 'h_release_2b', '2 blocks of 64 granules in any states of I, any list order / tree shape / cursor', unwind=6),
@@ -89,6 +104,7 @@ OUTSIDE = [
     'JIT memory is real only in units fill / reset, and only the first 256 bytes of the block; release/shrink/write there are limited to spans inside the first 4 granules',
     'release(rx) with an interior or stale (already released) pointer: the code has no used-bit check in release (unlike shrink/query) - treated as a precondition, only null and foreign pointers are claimed to be refused',
     'query(rx) with an interior pointer returns the suffix [granule of rx, end of span), not the whole span (asserted as such)',
+    'fill / write in the coarser pools of a multi-pool allocator (unit fillp) uses granularities scaled to 4 / 8 / 16 bytes; with the real 64 / 128 / 256 the span address arithmetic is checked without memory (unit block1p, h_first_block_multipool)',
     'real mmap / dual mapping aliasing / large pages / instruction-cache flushes (OS); two views are two buffers here',
     'block growth beyond the doubling / request-sized policy; histories of 10^5 operations (inductive argument instead)',
 ]
